@@ -31,6 +31,17 @@ def main():
     proto = os.fdopen(os.dup(1), "w"); sys.stdout = open(os.devnull, "w")
     vb = int(spec.get("verbose", 0))
     mems = {st: joblib.Memory(os.path.join(spec["root"], "store%s" % st), verbose=vb) for st in spec.get("stores", [1])}
+    homonyms = set(spec.get("homonyms") or ())
+    if homonyms:
+        # ONE Memory object with a relative location, used from one working directory per store number: the same spelling
+        # designates another directory each time
+        for st in [1] + sorted(homonyms): os.makedirs(os.path.join(spec["root"], "h%s" % st), exist_ok=True)
+        os.chdir(os.path.join(spec["root"], "h1"))
+        shared = joblib.Memory("relstore", verbose=vb)
+        mems = {st: shared for st in [1] + sorted(homonyms)}
+
+    def enter(st):
+        if homonyms: os.chdir(os.path.join(spec["root"], "h%s" % st))
     if spec.get("alias"):
         # these Memory objects are store 1 again, spelled as a relative path
         os.chdir(work)
@@ -69,7 +80,8 @@ def main():
         try:
             if op["op"] == "define":
                 f = define(op["v"], op.get("shift", 0))
-                objs[op["i"]] = (f, {st: m.cache(f) for st, m in mems.items()})
+                wr = {}
+                objs[op["i"]] = (f, {st: wr.setdefault(id(m), m.cache(f)) for st, m in mems.items()})
                 codes[op["v"]] = f.__code__
             elif op["op"] == "swap":
                 if op["v"] not in codes:
@@ -81,6 +93,7 @@ def main():
                 objs[op["i"]][0].__code__ = codes[op["v"]]
             elif op["op"] == "call":
                 before = os.path.getsize(log) if os.path.exists(log) else 0
+                enter(op.get("s", 1))
                 w = objs[op["i"]][1][op.get("s", 1)]
                 if op.get("copy"):
                     # the wrapper travels (copy / pickle, as when it is sent to workers): the copy must behave like the original
@@ -91,12 +104,14 @@ def main():
                 rec["executed"] = after > before
             elif op["op"] == "force":
                 before = os.path.getsize(log) if os.path.exists(log) else 0
+                enter(op.get("s", 1))
                 rec["value"] = objs[op["i"]][1][op.get("s", 1)].call(op["k"])[0]
                 after = os.path.getsize(log) if os.path.exists(log) else 0
                 rec["executed"] = after > before
             elif op["op"] == "check":
                 rec["value"] = bool(objs[op["i"]][1][op.get("s", 1)].check_call_in_cache(op["k"]))
             elif op["op"] == "clear":
+                enter(op.get("s", 1))
                 objs[op["i"]][1][op.get("s", 1)].clear(warn=False)
             elif op["op"] == "quit":
                 break
